@@ -106,6 +106,12 @@ Has(k) ==
     /\ UNCHANGED <<db, bops, bpendOn, bpend, bwritten>>
     /\ Log(Rec("has", 0, k, 0, <<>>, <<>>, 0), <<"has", db[k] # Absent>>)
 
+\* ethdb.Compacter.Compact(nil, nil): maintenance of the store (flush + merge of its internal structures, on disk engines);
+\* it must be invisible through the interface - whatever tombstones / overwritten versions the engine keeps internally
+Compact ==
+    /\ UNCHANGED <<db, bops, bpendOn, bpend, bwritten>>
+    /\ Log(Rec("compact", 0, <<>>, 0, <<>>, <<>>, 0), OK)
+
 Iterate(p, s) ==
     /\ UNCHANGED <<db, bops, bpendOn, bpend, bwritten>>
     /\ Log(Rec("iter", 0, <<>>, 0, p, s, 0), <<"iter", IterResult(db, p, s)>>)
@@ -189,6 +195,7 @@ Next ==
     /\ step < MaxOps
     /\ \/ \E k \in Keys, v \in Vals : Put(k, v)
        \/ \E k \in Keys : Delete(k) \/ Get(k) \/ Has(k)
+       \/ Compact
        \/ \E p \in IterPrefixes, s \in IterStarts : Iterate(p, s)
        \/ \E b \in Batches :
             \/ \E k \in Keys, v \in Vals : BPut(b, k, v)
